@@ -30,7 +30,7 @@ fn bits_eq(a: f64, b: f64) -> bool { a.to_bits() == b.to_bits() || (a.is_nan() &
 impl Sc for f64 {
     const TAG: &'static str = "f";
     fn gen(rng: &mut Rng, zero_pct: usize, kind: usize) -> f64 {
-        if kind == 0 { rng.f_dyadic(zero_pct) } else if rng.chance(zero_pct) { 0.0 } else { rng.f_general(if kind == 1 { 1.0 } else { 3.0 }) }
+        if kind == 0 { rng.f_dyadic(zero_pct) } else if rng.chance(zero_pct) { 0.0 } else { rng.f_general(if kind == 1 { 1.0 } else if kind == 2 { 3.0 } else { 12.0 }) }
     }
     fn same(&self, o: &f64) -> bool { bits_eq(*self, *o) }
     fn is_exact() -> bool { false }
